@@ -32,7 +32,7 @@ impl Segment {
             return Ok(Vec::new());
         }
 
-        let mut messages = Vec::with_capacity(count);
+        let mut messages = Vec::new();
         let mut remaining = count;
 
         let disk_messages = self
@@ -68,7 +68,9 @@ impl Segment {
             offset = self.start_offset;
         }
 
-        let end_offset = offset + (count - 1) as u64;
+        // The range never extends past the last message of the segment: a huge count must not wrap
+        // the segment-relative (u32) offsets computed from it below.
+        let end_offset = std::cmp::min(offset + (count - 1) as u64, self.current_offset);
 
         // In case that the partition messages buffer is disabled, we need to check the unsaved messages buffer
         if self.unsaved_messages.is_none() {
@@ -229,7 +231,7 @@ impl Segment {
         };
         let batches = self.load_batches_by_range(&index_range).await?;
 
-        let mut messages = Vec::with_capacity(count);
+        let mut messages = Vec::new();
         for batch in batches {
             for msg in batch.into_messages_iter() {
                 if msg.timestamp >= start_timestamp {
@@ -367,7 +369,9 @@ impl Segment {
             start_offset,
             end_offset
         );
-        let messages_count = (start_offset + end_offset + 1) as usize;
+        // Never reserve more than the segment can hold: the requested range may be far larger.
+        let last_offset = std::cmp::min(end_offset, self.current_offset);
+        let messages_count = last_offset.saturating_sub(start_offset) as usize + 1;
         let messages = self
             .load_batches_by_range(index_range)
             .await
